@@ -1,5 +1,5 @@
 """Trace worker for C02's cross-process check: reads JSON programs from stdin, one per
-line ({'cfg':..., 'seed':..., 'ops':..., 'debug': bool|None}), answers with the SHA-256 of the
+line ({'cfg':..., 'seed':..., 'ops':..., 'debug': bool|None} or {'fn':..., 'p':..., 'seed':..., 'n':...}), answers with the SHA-256 of the
 canonical trace.  Started by the parent with a chosen PYTHONHASHSEED."""
 import json
 import sys
@@ -20,8 +20,13 @@ def main():
         try:
             prog = json.loads(line)
             reset_gv_debug(prog.get('debug'))
-            env = configs.build(prog['cfg'], prog['seed'])
-            out = {'digest': trace.trace_digest(trace.run_ops(env, prog['ops']))}
+            if 'fn' in prog:
+                # a reset function called through the Python API (colours as a set, as its signature asks)
+                from vgv.props import c02
+                out = {'digest': c02.reset_digest(prog['fn'], prog['p'], prog['seed'], prog['n'])}
+            else:
+                env = configs.build(prog['cfg'], prog['seed'])
+                out = {'digest': trace.trace_digest(trace.run_ops(env, prog['ops']))}
         except Exception as e:  # noqa: BLE001
             out = {'error': f'{type(e).__name__}: {e}'}
         sys.stdout.write(json.dumps(out) + '\n')
